@@ -276,6 +276,7 @@ func checkC05(c *km.Ctx) {
 		r.Remap = nil
 	}
 	checkPushRecords(c)
+	checkFreshDecodeTargets(c, "R-C05-2")
 	checkChallengeAtomic(c, km.NewLockSets(), "R-C05-4")
 }
 
@@ -1199,4 +1200,54 @@ func authCookieSelection(c *km.Ctx, fn *ssa.Function) string {
 	}
 	sort.Strings(l)
 	return strings.Join(l, " and ")
+}
+
+// checkFreshDecodeTargets: what the Okta authenticator learns about one user's login (state token, enrolled
+// factors, push status) is decoded into a value made for that call. A decoder leaves fields that are absent from
+// the reply as they were: a target taken from a pool, a field or a package variable carries the previous user's
+// state token into this user's session.
+func checkFreshDecodeTargets(c *km.Ctx, rule string) {
+	n, bad := 0, ""
+	for _, fn := range c.P.AllFuncs {
+		if fn.Pkg == nil || fn.Pkg.Pkg.Path() != km.ModPath+"/lib/authenticators/okta" {
+			continue
+		}
+		for _, ci := range km.CallsIn(fn) {
+			var target ssa.Value
+			switch km.CalleeFull(ci.Common()) {
+			case "(*encoding/json.Decoder).Decode":
+				target = ci.Common().Args[1]
+			case "encoding/json.Unmarshal":
+				target = ci.Common().Args[1]
+			default:
+				continue
+			}
+			n++
+			t := km.Unwrap(target)
+			al, isAl := t.(*ssa.Alloc)
+			fresh := isAl && al.Parent() == fn
+			if fresh {
+				// a local that is not itself filled from somewhere else before the decode
+				for _, ref := range *al.Referrers() {
+					if st, isSt := ref.(*ssa.Store); isSt && st.Addr == ssa.Value(al) && km.InstrDominates(st, ci) {
+						if _, isC := km.Unwrap(st.Val).(*ssa.Const); !isC {
+							fresh = false
+						}
+					}
+				}
+			}
+			if !fresh {
+				bad = "decoded into " + clipS(km.ValStr(target), 80) + " at " + posOf(c, ci)
+			}
+		}
+	}
+	if n == 0 {
+		c.R.AnchorLost(rule, "JSON decoding of Okta replies")
+		return
+	}
+	found := sprintf("%d decode sites, each into a variable declared in the call", n)
+	if bad != "" {
+		found = bad
+	}
+	c.R.Add(rule, "lib/authenticators/okta", "replies are decoded into fresh values", "-", "every decode target is a local variable of the call (not pooled, not shared)", found, bad == "")
 }
